@@ -30,12 +30,12 @@ func (mt MapType) goString(settings GenerateSettings) string {
 	return "map[" + simpleGoString(mt.Key, settings) + "]" + mt.Value.goString(settings)
 }
 
-// fields returns the fields of the branch's struct or message.
+// fields returns the fields of the branch's struct or message, a message's in index order.
 func (uf UnionField) fields() []Field {
 	if uf.Message != nil {
 		fds := make([]Field, 0, len(uf.Message.Fields))
-		for _, fd := range uf.Message.Fields {
-			fds = append(fds, fd)
+		for _, idx := range sortedKeys(uf.Message.Fields) {
+			fds = append(fds, uf.Message.Fields[idx])
 		}
 		return fds
 	}
